@@ -3,7 +3,7 @@ from __future__ import annotations
 
 import ast
 
-from .. import memo, fx, q
+from .. import memo, fx, pat, q
 from ..boolterm import head_name
 from ..core import AnchorError, Ctx, FuncInfo, dotted, guard_facts, norm, walk_no_nested
 from ..rewrite import single_bindings
@@ -66,9 +66,21 @@ def check_splice(ctx: Ctx, fi: FuncInfo):
     new = norm(sp.value)
     facts = [(norm(e), pol) for e, pol in guard_facts(fi, sp)]
     base = new[: -len(".gates")] if new.endswith(".gates") else new
-    size_ok = any((not pol) and f.replace(" ", "") == f"len({base}.gates)>len({sec}.gates)" for f, pol in facts) or any(pol and f.replace(" ", "") == f"len({base}.gates)<=len({sec}.gates)" for f, pol in facts)
+    fz = [(f.replace(" ", ""), pol) for f, pol in facts]
+    lb, ls = f"len({base}.gates)", f"len({sec}.gates)"
+    size_ok = any((f, pol) in ((f"{lb}>{ls}", False), (f"{lb}<={ls}", True), (f"{ls}<{lb}", False), (f"{ls}>={lb}", True)) for f, pol in fz)
     ctx.check(size_ok, "MP-splice-guards", fi, "spliced only if not larger", f"len({base}.gates) <= len({sec}.gates)", f"the splice is not control-dependent on the size comparison (guards: {facts})", sp)
-    qs_ok = any((not pol) and f"{base}.used_qubits -" in f and "!= set()" in f for f, pol in facts) or any(pol and "issubset" in f and f"{base}.used_qubits" in f for f, pol in facts)
+    import re as _re
+
+    uq = _re.escape(f"{base}.used_qubits")
+    qs_forms = [(rf"^\(?{uq}-(\w+)\)?!=set\(\)$", False), (rf"^\(?{uq}-(\w+)\)?==set\(\)$", True), (rf"^{uq}<=(\w+)$", True), (rf"^{uq}\.issubset\((\w+)\)$", True), (rf"^{uq}-(\w+)$", False), (rf"^(\w+)>={uq}$", True)]
+    sq_from_guard = None
+    for f, pol in fz:
+        for rx, want in qs_forms:
+            m_ = _re.match(rx, f)
+            if m_ and pol == want:
+                sq_from_guard = m_.group(1)
+    qs_ok = sq_from_guard is not None
     ctx.check(qs_ok, "MP-splice-guards", fi, "spliced only if it stays on the section's qubits", f"{base}.used_qubits - section_qubits == set()", f"the splice is not control-dependent on the qubit-set comparison (guards: {facts}): a re-synthesis that allocates a new qubit would be spliced into a circuit that does not have it", sp)
     # a definition satisfied by re-pointing a name (no gate emitted) must not be spliced: the optimizer looks at
     # qc_sec.gates only
@@ -81,15 +93,24 @@ def check_splice(ctx: Ctx, fi: FuncInfo):
             remap_ok = True
     ctx.check(remap_ok, "MP-splice-guards", fi, "spliced only if every qubit name still sits on its own qubit", f"any({base}.qubit_map.get(s) != i for i, s in enumerate(symbols)) -> skip", "the splice is not guarded against re-synthesis by relabelling: the compiler satisfies `q0 = q1` by pointing the name q0 at q1's qubit without emitting a gate, and only the gate list is spliced, so a section that permutes qubits (a swap made of three CX) is replaced by nothing", sp)
     # section_qubits is the set of wires of the section's gates
-    sq = None
-    for e, pol in guard_facts(fi, sp):
-        for n in ast.walk(e):
-            if isinstance(n, ast.BinOp) and isinstance(n.op, ast.Sub) and norm(n.left).endswith(".used_qubits"):
-                sq = norm(n.right)
+    sq = sq_from_guard
     if sq:
         adds = [c for c in q.method_calls(loop, "add") if norm(c.func.value) == sq]
         src_loops = [l for l in q.for_loops(loop, nested=True) if norm(l.iter) == f"{sec}.gates"]
-        ctx.check(bool(adds) and bool(src_loops), "MP-splice-guards", fi, "qubit set collected from the section's own gates", "", f"`{sq}` is not collected from the wires of {sec}.gates", loop)
+        by_loops = bool(adds) and bool(src_loops)
+        # or a set comprehension / set(...) over the wires of the section's gates
+        defs = [n.value for n in ast.walk(loop) if isinstance(n, ast.Assign) and norm(n.targets[0]) == sq]
+        by_comp = False
+        for v in defs:
+            core = v.args[0] if isinstance(v, ast.Call) and norm(v.func) == "set" and len(v.args) == 1 else v
+            if isinstance(core, (ast.SetComp, ast.GeneratorExp, ast.ListComp)) and len(core.generators) == 2 and norm(core.generators[0].iter) == f"{sec}.gates" and not any(g.ifs for g in core.generators):
+                g0, g1 = core.generators
+                wvar = norm(g1.iter)
+                by_comp = isinstance(g0.target, ast.Tuple) and len(g0.target.elts) == 3 and norm(g0.target.elts[1]) == wvar and norm(core.elt) == norm(g1.target)
+        if not defs and not adds:
+            ctx.undecided(fi.short, f"the qubit set `{sq}` compared with the re-synthesised circuit's qubits is not built in the section loop")
+        else:
+            ctx.check(by_loops or by_comp, "MP-splice-guards", fi, "qubit set collected from the section's own gates", "", f"`{sq}` is not the set of all wires of {sec}.gates", loop)
     # the splice target is the copy that is returned
     rets = q.returns(fi)
     tgt = norm(sp.targets[0].value)[: -len(".gates")]
@@ -105,26 +126,39 @@ def check_resynth(ctx: Ctx, fi: FuncInfo):
     ex = q.arg(c, 0, "exprs")
     if sy is None or ex is None:
         raise AnchorError(OPT, "exprs_to_quantum called without exprs/symbols")
-    # all assignments to the symbols variable
-    vals = [n.value for n in walk_no_nested(fi.node) if isinstance(n, ast.Assign) and norm(n.targets[0]) == norm(sy)]
-    if not vals:
+    # every value the symbols variable can take, aliases looked through
+    binds = pat.bindings(fi.node)
+    alts = q.value_alternatives(fi, fi.node, norm(sy)) if isinstance(sy, ast.Name) else [(sy, [], c)]
+    if not alts:
         raise AnchorError(OPT, "symbols is not assigned in the function")
-    for v in vals:
+    for v, conds, node in alts:
+        v = pat.look_through(v, binds)
         txt = norm(v)
         core = q.strip_wrappers(v)
         if "qubit_map" in txt:
             ok = norm(core).endswith(".qubit_map.keys()") or norm(core).endswith(".qubit_map")
-            ctx.check(ok, "MP-resynth-args", fi, "symbols = qubit names in index order", txt, f"`{txt}` re-orders or filters the qubit names (the position of a name in this list is the wire the re-synthesised gates act on; dict order of a vanilla copy is index order, sorted() is not: q10 < q2)", v)
+            ctx.check(ok, "MP-resynth-args", fi, "symbols = qubit names in index order", txt, f"`{txt}` re-orders or filters the qubit names (the position of a name in this list is the wire the re-synthesised gates act on; dict order of a vanilla copy is index order, sorted() is not: q10 < q2)", node)
+        elif "preserve" in txt:
+            ok = "sorted" not in txt and "set(" not in txt and q.is_reversed(v) is None
+            ctx.check(ok, "MP-resynth-args", fi, "symbols for the preserve list keep its order", txt, f"`{txt}` re-orders the preserve list", node)
         else:
-            ok = "preserve" in txt and "sorted" not in txt and "set(" not in txt
-            ctx.check(ok, "MP-resynth-args", fi, "symbols for the preserve list keep its order", txt, f"`{txt}` re-orders the preserve list", v)
-    # expressions passed are the simplified section expressions, symbol kept
-    app = [a for a in q.method_calls(fi.node, "append") if norm(a.func.value) == norm(ex)]
-    ok = len(app) == 1 and isinstance(app[0].args[0], ast.Tuple) and len(app[0].args[0].elts) == 2
-    if ok:
-        lp = [l for l in q.for_loops(fi.node, nested=True) if q.contains(l, app[0]) and isinstance(l.target, ast.Tuple)]
-        ok = bool(lp) and norm(app[0].args[0].elts[0]) == norm(lp[-1].target.elts[0]) and norm(lp[-1].iter).endswith(".expressions")
-    ctx.check(ok, "MP-resynth-args", fi, "each section expression keeps its qubit symbol", "", "the (symbol, expression) pairs handed to re-synthesis do not keep the section's symbols", c)
+            ctx.undecided(fi.short, f"symbols handed to re-synthesis can be `{txt[:80]}`: neither the qubit names nor the preserve list")
+    # expressions passed are the simplified section expressions, symbol kept: a loop appending pairs or a comprehension
+    exv = pat.look_through(ex, binds)
+    pairs_ok = None
+    if isinstance(exv, (ast.ListComp, ast.GeneratorExp)) and len(exv.generators) == 1:
+        g = exv.generators[0]
+        if isinstance(g.target, ast.Tuple) and len(g.target.elts) == 2 and isinstance(exv.elt, ast.Tuple) and len(exv.elt.elts) == 2:
+            pairs_ok = norm(exv.elt.elts[0]) == norm(g.target.elts[0]) and norm(g.iter).endswith(".expressions") and not g.ifs and norm(g.target.elts[1]) in norm(exv.elt.elts[1])
+    else:
+        app = [a_ for a_ in q.method_calls(fi.node, "append") if norm(a_.func.value) == norm(ex)]
+        if len(app) == 1 and isinstance(app[0].args[0], ast.Tuple) and len(app[0].args[0].elts) == 2:
+            lp = [l for l in q.for_loops(fi.node, nested=True) if q.contains(l, app[0]) and isinstance(l.target, ast.Tuple)]
+            pairs_ok = bool(lp) and norm(app[0].args[0].elts[0]) == norm(lp[-1].target.elts[0]) and norm(lp[-1].iter).endswith(".expressions")
+    if pairs_ok is None:
+        ctx.undecided(fi.short, f"the expressions handed to re-synthesis (`{norm(ex)[:60]}`) are not built by one loop / comprehension over the section's (symbol, expression) pairs")
+    else:
+        ctx.check(pairs_ok, "MP-resynth-args", fi, "each section expression keeps its qubit symbol", "", "the (symbol, expression) pairs handed to re-synthesis do not keep the section's symbols", c)
     # exprs_to_quantum
     e2q = ctx.repo.func("compiler.exprs_to_quantum")
     tq = [x for x in q.calls(e2q.node) if (dotted(x.func) or "") == "to_quantum"]
@@ -134,13 +168,25 @@ def check_resynth(ctx: Ctx, fi: FuncInfo):
     rt = q.arg(tq[0], 2, "returns")
     ctx.check(un is not None and isinstance(un, ast.Constant) and un.value is False, "MP-resynth-args", e2q, "re-synthesis without uncomputation", "uncompute=False", "a section re-synthesised with uncompute=True would undo its own effect", tq[0])
     ctx.check(rt is not None and isinstance(rt, ast.Constant) and rt.value is None, "MP-resynth-args", e2q, "no return value (qubits are updated in place)", "returns=None", "", tq[0])
-    lp = [l for l in q.for_loops(e2q.node) if norm(l.iter) == e2q.params[1]]
-    ok = len(lp) == 1 and q.reversal_parity(lp[0].iter)[1] == 0
-    if ok:
-        app = q.method_calls(lp[0], "append")
-        s = norm(lp[0].target)
-        ok = len(app) == 1 and norm(app[0].args[0]).replace(" ", "") == f"Arg({s},bool,[{s}])"
-    ctx.check(ok, "MP-resynth-args", e2q, "one bool argument per symbol, in order", "", "the arguments (= input qubits 0..n-1) are not built one per symbol in the order given", e2q.node)
+    # the argument list: Arg(s, bool, [s]) for every symbol, in the order given (loop + append or comprehension)
+    av = q.arg(tq[0], 1, "args")
+    avv = pat.look_through(av, pat.bindings(e2q.node)) if av is not None else None
+    sym_p = e2q.params[1]
+    verdict = None
+    if isinstance(avv, (ast.ListComp, ast.GeneratorExp)) and len(avv.generators) == 1:
+        g = avv.generators[0]
+        s_ = norm(g.target)
+        verdict = q.reversal_parity(g.iter)[1] == 0 and norm(q.reversal_parity(g.iter)[0]) == sym_p and not g.ifs and norm(avv.elt).replace(" ", "") == f"Arg({s_},bool,[{s_}])"
+    else:
+        lp = [l for l in q.for_loops(e2q.node) if norm(q.reversal_parity(l.iter)[0]) == sym_p]
+        if len(lp) == 1:
+            app = q.method_calls(lp[0], "append")
+            s_ = norm(lp[0].target)
+            verdict = q.reversal_parity(lp[0].iter)[1] == 0 and len(app) == 1 and norm(app[0].args[0]).replace(" ", "") == f"Arg({s_},bool,[{s_}])"
+    if verdict is None:
+        ctx.undecided(e2q.short, f"the argument list handed to to_quantum (`{norm(av)[:60] if av is not None else '?'}`) is not built by one loop / comprehension over `{sym_p}`")
+    else:
+        ctx.check(verdict, "MP-resynth-args", e2q, "one bool argument per symbol, in order", "", "the arguments (= input qubits 0..n-1) are not built one per symbol in the order given", e2q.node)
 
 
 def check_language(ctx: Ctx):
